@@ -73,6 +73,8 @@ class Replayer:
 		obs: dict = {}
 		if name == 'edit':
 			w.edit(op['m'], op['v'], op.get('t'))
+		elif name == 'swap':
+			w.swap(op['m1'], op['m2'])
 		elif name == 'clear':
 			w.clear_cache()
 			self.tracker.names = {}
